@@ -98,7 +98,7 @@ def main() -> int:
     states = trans = 0
     if replay:
         rp = json.load(open(replay))
-        jobs = [] if (rp.get("refusal") or rp.get("deck_history")) else [(rp["id"], rp["kind"], rp["prep"], rp["ops"])]
+        jobs = [] if (rp.get("refusal") or rp.get("deck_history") or rp.get("host")) else [(rp["id"], rp["kind"], rp["prep"], rp["ops"])]
     else:
         cfgs = [("pairs", kinds, 2)] + ([("triples", ["textbox", "table", "chart_bar", "picture", "slide", "ph_insert"], 3)] if thorough else [])
         seen = set()
@@ -139,6 +139,26 @@ def main() -> int:
     # ("arguments drawn from their whole documented domains"), refused ones must leave it as valid as it was
     tab = tab + [{"name": "reject.attr", "kinds": [], "pre": [], "set": [], "clr": [], "rejects": ["ValueError", "TypeError"]},
                  {"name": "prop.set", "kinds": [], "pre": [], "set": [], "clr": [], "rejects": []}]
+    # further hosts: the histories of other modules' machines replayed with the monitor on (mbt/checks/c03_hosts.py)
+    from mbt.checks import c03_hosts as H
+    tab = tab + [H.OK, H.REFUSED]
+    for hname, (mkjobs, runjob) in H.HOSTS.items():
+        if replay and not (rp.get("host") and rp["host"][0] == hname):
+            continue
+        if replay:
+            hjobs = [tuple(rp["host"][1])]
+        else:
+            hjobs, info = mkjobs(work, thorough)
+            per["host_" + hname] = info
+        htraces = [t for ts in E.pmap(runjob, hjobs, procs=16, chunk=4) for t in ts]
+        if replay:
+            htraces = [t for t in htraces if t["id"] == rp["id"]] or htraces
+        else:
+            per["host_" + hname]["traces"] = len(htraces)
+            per["host_" + hname]["real_calls"] = sum(len(t["steps"]) for t in htraces)
+        for t in htraces:
+            jobs.append((t["id"], hname, "host", [s_["label"] for s_ in t["steps"]]))
+            traces.append(t)
     if not replay or rp.get("refusal"):
         from mbt.checks import c09
         from mbt.drive import props as PD
@@ -202,7 +222,7 @@ def main() -> int:
         seen_new = set()
         for b in sorted(v["bad"], key=lambda x: x["k"]):
             # each step is charged only with the error signatures it introduces (an earlier step's errors persist in later verdicts)
-            opname = t["steps"][b["k"] - 1]["op"] if b["at"] == "step" else "save"
+            opname = (t["steps"][b["k"] - 1].get("label") or t["steps"][b["k"] - 1]["op"]) if b["at"] == "step" else "save"
             if j[2] in ("refused", "assigned"):
                 opname = j[3][0]
             fresh = [n for n in b["new"] if (n["role"], n["sig"]) not in seen_new]
@@ -214,7 +234,9 @@ def main() -> int:
             clause = "+".join(sorted(b["failing"]))
             for sg in (sigs or ["-"])[:4]:
                 rep.reject("%s@%s[%s|%s]" % (clause if sigs else "+".join(only_clause), opname, sg, j[2]),
-                           {"module": "SlideOps", "id": v["id"], "kind": j[1], "prep": j[2], "ops": j[3], "failing": b, "deck_history": t.get("h"), "refusal": t.get("refusal")},
+                           {"module": "SlideOps", "id": v["id"], "kind": j[1], "prep": j[2], "ops": j[3], "failing": b, "deck_history": t.get("h"), "refusal": t.get("refusal"),
+                            "host": t.get("host")},
+                           ("host=%s history %s step %d" % (j[1], H.describe(t), b["k"])) if t.get("host") else
                            "kind=%s prep=%s ops=%s step %d" % (j[1], j[2], j[3], b["k"]))
     unexpected = {}
     for t in traces:
